@@ -251,7 +251,11 @@ Lemma cs_generic_adv so ng chprev inrange first sub ch tr q its m :
 Proof.
   intros H1 H2. unfold cs_generic.
   destruct inrange.
-  - destruct so; [apply cs_next_adv; assumption|].
+  - destruct so.
+    { destruct ((ch =? 91) && negb tr && negb first); [|apply cs_next_adv; assumption].
+      pose proof (cs_nested_adv true q (length q) H1 (le_n _)) as S.
+      destruct (cs_nested rec true q) as [[sb q3]|e q3| | |]; cbn in S; try contradiction; try exact I;
+        apply cs_next_adv; lia. }
     destruct ((ch =? 91) && negb tr && negb first).
     + pose proof (cs_nested_adv false q (length q) H1 (le_n _)) as S.
       destruct (cs_nested rec false q) as [[sb q3]|e q3| | |]; cbn [pbind padv] in *; try contradiction; [|lia|exact I].
